@@ -5,7 +5,7 @@
     obligations for every tree. *)
 From Coq Require Import List NArith ZArith Bool String.
 From TG.Gen Require Import GenTokens GenAst GenLexer GenAstMethods GenLibGlue.
-From TG.Model Require Import Chars Tree CoreAst AstAccess AstToCore ParserMonad GInterp RowanApi.
+From TG.Model Require Import Chars Tree CoreAst AstAccess AstToCore ParserMonad GInterp RowanApi LibGlueApi.
 From TG.Proofs Require Import GenParserEq GenAstMethodsEq GenLibGlueEq.
 Import ListNotations.
 
@@ -26,17 +26,27 @@ Proof.
   split; [exact (string_value_eq x)|].
   split; [exact (is_single_element_eq x)|exact (bang_kind_eq x)].
 Qed.
+Check Ast_methods_are_source : forall (c : cx) (x : lnode),
+  gam_Identifier_value x = Some (option_map i_name (m_identifier c x)) /\
+  gam_Identifier_range x = Some (option_map (fun i => (r_lo (i_rng i), r_hi (i_rng i))) (m_identifier c x)) /\
+  gam_Integer_value x = Some (m_integer_value x) /\
+  gam_String_value x = Some (m_string_value x) /\
+  gam_SliceSuffix_is_single_element x = Some (m_is_single_element x) /\
+  gam_BangOperator_kind x = Some (m_bang_kind x).
 Print Assumptions Ast_methods_are_source.
 
 (** `lexer::interpret_number` as Integer::value calls it (the GENERATED lexer function) is the bridge's *)
 Theorem Ast_interpret_number_is_source : forall s : text, g_interpret_number s = AstToCore.interpret_number s.
 Proof. exact interpret_number_eq. Qed.
+Check Ast_interpret_number_is_source : forall s : text, g_interpret_number s = AstToCore.interpret_number s.
 Print Assumptions Ast_interpret_number_is_source.
 
 (** the three methods nobody models by hand (Code::value, Boolean::value, VarName::value) never panic *)
 Theorem Ast_other_methods_total : forall x : lnode,
   gam_Code_value x <> None /\ gam_Boolean_value x <> None /\ gam_VarName_value x <> None.
 Proof. exact other_methods_total. Qed.
+Check Ast_other_methods_total : forall x : lnode,
+  gam_Code_value x <> None /\ gam_Boolean_value x <> None /\ gam_VarName_value x <> None.
 Print Assumptions Ast_other_methods_total.
 
 (** lib.rs: `parse` is the composition the C01/C02/C15 theorems speak about; raw kinds round-trip without panic;
@@ -55,4 +65,11 @@ Proof.
   split; [exact syntax_node_root|].
   split; [exact source_file_cast|reflexivity].
 Qed.
+Check Lib_glue_is_source :
+  (forall fuel p entry txt, glib_parse (fun g => ggexec fuel p (ECall entry None) [] g) txt = gparse_with fuel p entry txt) /\
+  (forall k, glib_kind_from_raw (glib_kind_to_raw k) = Some k) /\
+  (forall raw k, glib_kind_from_raw raw = Some k -> glib_kind_to_raw k = raw) /\
+  (forall g es, glib_syntax_node (mk_parse g es) = (0%N, g)) /\
+  (forall g es, glib_source_file (mk_parse g es) = if sk_eqb (kind_of g) S_SourceFile then Some (0%N, g) else None) /\
+  (forall g es, glib_errors (mk_parse g es) = es).
 Print Assumptions Lib_glue_is_source.
